@@ -97,6 +97,9 @@ class Derived:
     alias: str
     as_kw: bool = True
 @dataclass(frozen=True)
+class Nested:  # a parenthesised join used as a FROM / JOIN item:  a JOIN (b JOIN c ON ..) ON ..
+    group: object  # FromGroup
+@dataclass(frozen=True)
 class Join:
     kind: str  # 'JOIN','INNER JOIN','LEFT JOIN','LEFT OUTER JOIN','RIGHT JOIN','FULL OUTER JOIN','CROSS JOIN'
     item: object
@@ -126,6 +129,7 @@ class SetOp:
 class With:
     ctes: tuple  # ((name, query),...)
     body: object
+    recursive: bool = False  # WITH RECURSIVE: a CTE body may reference its own name (tables-only checks)
 # statements
 @dataclass(frozen=True)
 class Insert:
@@ -226,6 +230,7 @@ def r_from_item(f) -> str:
     if isinstance(f, T): return r_tname(f) + r_alias(f.alias, f.as_kw)
     if isinstance(f, CteRef): return f.name + r_alias(f.alias, f.as_kw)
     if isinstance(f, Derived): return f"({r_query(f.q)})" + r_alias(f.alias, f.as_kw)
+    if isinstance(f, Nested): return f"({r_group(f.group)})"
     raise TypeError(f)
 
 def r_group(g: FromGroup) -> str:
@@ -253,7 +258,7 @@ def r_query(q) -> str:
         for op, b in zip(q.ops, q.branches[1:]): s += f" {op} {r_query(b)}"
         return s
     if isinstance(q, With):
-        return "WITH " + ", ".join(f"{n} AS ({r_query(cq)})" for n, cq in q.ctes) + " " + r_query(q.body)
+        return ("WITH RECURSIVE " if q.recursive else "WITH ") + ", ".join(f"{n} AS ({r_query(cq)})" for n, cq in q.ctes) + " " + r_query(q.body)
     raise TypeError(q)
 
 def r_stmt(s) -> str:
@@ -370,6 +375,9 @@ class Oracle:
             elif isinstance(f, Derived):
                 rel = self.query(f.q, env, f.alias.lower())
                 scope.append((f, {f.alias.lower()}, rel))
+            elif isinstance(f, Nested):
+                add_item(f.group.first)
+                for j in f.group.joins: add_item(j.item)
         for g in q.frm:
             add_item(g.first)
             for j in g.joins: add_item(j.item)
@@ -494,6 +502,11 @@ def _walk_pred_tables(p, acc):
 def _walk_item_tables(f, acc):
     if isinstance(f, T): acc.add(tkey(f))
     elif isinstance(f, Derived): _walk_query_tables(f.q, acc)
+    elif isinstance(f, Nested):
+        _walk_item_tables(f.group.first, acc)
+        for j in f.group.joins:
+            _walk_item_tables(j.item, acc)
+            if j.cond and j.cond[0] == "on": _walk_pred_tables(j.cond[1], acc)
 
 def _walk_query_tables(q, acc):
     if isinstance(q, With):
@@ -552,6 +565,11 @@ def ir_signature(stmt):
         if isinstance(f, T): names.append((f"{f.schema}.{f.name}" if f.schema else f.name).lower())
         elif isinstance(f, CteRef): names.append(f.name.lower())
         elif isinstance(f, Derived): query(f.q)
+        elif isinstance(f, Nested):
+            item(f.group.first)
+            for j in f.group.joins:
+                item(j.item)
+                if j.cond and j.cond[0] == "on": pred(j.cond[1])
     def expr(e):
         if isinstance(e, ScalarSub): query(e.q)
         elif isinstance(e, Func):
